@@ -60,14 +60,12 @@ func printClaims(c psatoken.IClaims) []string {
 			prof = "s" + hexTok([]byte(*t.Profile))
 		}
 		nosw := "_"
-		if t.NoSwMeasurements != nil {
-			nosw = utoa(uint64(*t.NoSwMeasurements))
-		}
+		nosw = intPtrFieldTok(t, "NoSwMeasurements")
 		nonce := "_"
 		if t.Nonce != nil {
 			nonce = "[" + hexTok(*t.Nonce) + "]"
 		}
-		return []string{"1", prof, optI32(t.ClientID), optU16(t.SecurityLifeCycle), optHexTok(t.ImplID), optHexTok(t.BootSeed),
+		return []string{"1", prof, intPtrFieldTok(t, "ClientID"), intPtrFieldTok(t, "SecurityLifeCycle"), optHexTok(t.ImplID), optHexTok(t.BootSeed),
 			optStrTok(t.CertificationReference), swcsTok(t.SwComponents), nosw, nonce, optHexTok(t.InstID), optStrTok(t.VSI), hexTok([]byte(t.CanonicalProfile))}
 	case *psatoken.P2Claims:
 		prof := "_"
@@ -94,7 +92,7 @@ func printClaims(c psatoken.IClaims) []string {
 		if t.InstID != nil {
 			inst = hexTok([]byte(*t.InstID))
 		}
-		return []string{"2", prof, optI32(t.ClientID), optU16(t.SecurityLifeCycle), optHexTok(t.ImplID), optHexTok(t.BootSeed),
+		return []string{"2", prof, intPtrFieldTok(t, "ClientID"), intPtrFieldTok(t, "SecurityLifeCycle"), optHexTok(t.ImplID), optHexTok(t.BootSeed),
 			optStrTok(t.CertificationReference), swcsTok(t.SwComponents), "_", nonce, inst, optStrTok(t.VSI), hexTok([]byte(t.CanonicalProfile))}
 	}
 	return []string{"foreign-claims-type"}
